@@ -2,11 +2,12 @@
 import importlib
 import inspect
 import json
+import traceback
 import warnings
 
 import numpy as np
 
-from ..common import SRC, Ctx, Tokens, b2f, driver_batch, f2b
+from ..common import SRC, Ctx, DriverError, Tokens, b2f, driver_batch, f2b
 from . import c12_ext as ext
 
 LEVEL = "proof"
@@ -96,7 +97,15 @@ RULE = (
     "generated constructor run as one history from empty caches (degree, method, points of the named file, weights, warnings, keys of the four "
     "cache dictionaries after every step), and the same histories continuing this process's state; oracle: AtomGrid(degrees=/sizes=), "
     "AtomGrid.from_pruned / from_preset with every method over the method's whole range (beyond 131 for the non-Lebedev ones) incl. requests "
-    "above the maximum, MolGrid.from_size / from_pruned / from_preset (Lebedev only: these routes have no method argument) incl. requests above 131 / 5810"
+    "above the maximum, MolGrid.from_size / from_pruned / from_preset (Lebedev only: these routes have no method argument) incl. requests above 131 / 5810. "
+    "Round 4: in every run sequences holding a size together with its own matched degree (and that degree's degree), both orders, repeats, table and odd sizes, every "
+    "method, through the converter (model and brute force; array / list / int32 / negative stride) and AtomGrid(sizes=); ONE argument object (int64 / int32 / int16 / uint16 array, "
+    "read-only, negative-stride, strided and middle-slice views of a larger caller array whose other elements must survive, list, tuple) handed two and three times to the "
+    "converter, AtomGrid, from_pruned, MolGrid.from_pruned([obj]*natoms) and through three entry points in a row, reference from a pristine copy; every argument combination "
+    "(degree and size / degrees and sizes / d_sectors and s_sectors both given, None next to the alternative, omitted vs None vs the default, positional vs keyword); calls that "
+    "raise (above the maximum, negative, float, both None, unknown method, a bad entry in the middle of a sequence) inside histories, every later accepted call against the table; "
+    "one entry for every shell, one / two / three / five radial points, first / last entry the largest or zero, lengths that do not fit. corr and oracle run as independent parts "
+    "(an exception in one part is recorded — `<part>:raises` when the library raised — and never hides the others)"
 )
 TRUSTED_BASE = [
     "Lean 4.33 kernel; axioms propext, Classical.choice, Quot.sound only (audited per theorem)",
@@ -602,8 +611,29 @@ def _scenarios(ctx: Ctx, ang, n):
             {"op": "edit", "what": "converted"},
             {"op": "atomgrid", "kind": ctx.rng.choice(["deg", "size"]), "seq": [3, 5], "rpoints": [0.5, 1.5], "method": m},
         ]
+        dmax, smax = max(npts.values()), max(npts)
+        raising = [
+            {"op": "init", "degree": dmax + ctx.rng.randrange(1, 9), "cache": True, "method": m},
+            {"op": "init", "size": smax + 1, "method": sp},
+            {"op": "init", "size": -1, "cache": ctx.rng.choice([True, False]), "method": m},
+            {"op": "init", "degree": 2.5, "method": m},
+            {"op": "init", "degree": None, "size": None, "method": m},
+            {"op": "init", "degree": dreq, "method": m + "_"},
+            {"op": "convert", "sizes": [sreq, smax + 3, 1], "method": m},
+            {"op": "convert", "sizes": [sreq, 1], "method": "gauss"},
+            {"op": "gds", "degree": None, "size": smax + 1, "method": m},
+            {"op": "load", "degree": d, "size": sz + 1, "method": m},
+            {"op": "atomgrid", "kind": "deg", "seq": [dreq, dmax + 1], "rpoints": [0.5, 1.5], "method": m},
+            {"op": "atomgrid", "kind": "size", "seq": [sreq, smax + 1, sreq], "rpoints": [0.5, 1.0, 1.5], "method": m},
+        ]
+        variants = [
+            {"op": "init", "degree": None, "size": sreq, "method": m},                # explicit None next to the alternative
+            {"op": "init", "degree": dreq, "size": None, "cache": True, "method": m},  # explicit defaults
+            {"op": "atomgrid", "kind": ctx.rng.choice(["deg", "size"]), "seq": [ctx.rng.choice([dreq, 3])], "rpoints": [0.3, 0.8, 1.9][:ctx.rng.randrange(1, 4)], "method": m},
+        ]
         for _ in range(ctx.rng.randrange(4, 8)):
-            steps.append(ctx.rng.choice(pool))
+            r = ctx.rng.random()
+            steps.append(ctx.rng.choice(raising) if r < 0.25 else ctx.rng.choice(variants) if r < 0.4 else ctx.rng.choice(pool))
         steps += [{"op": "init", "degree": dreq, "cache": False, "method": m}, {"op": "attrs", "order": ctx.rng.choice(orders)}]
         out.append(json.loads(json.dumps(steps)))
     return out
@@ -618,6 +648,10 @@ def _expand(ang, st, dflt, convert):
         m = st.get("method", "lebedev")
         degs = st["seq"] if st["kind"] == "deg" else convert(m, st["seq"])
         if degs is None:
+            return None
+        if len(degs) == 1:
+            degs = list(degs) * len(st["rpoints"])
+        elif len(degs) != len(st["rpoints"]):
             return None
         return [(m.lower(), _tok(int(x)), "none", dflt["cache"]) for x in degs]
     return []
@@ -800,6 +834,56 @@ def _corr_fresh(ctx: Ctx, ang):
     _check_weights(ctx, ang, pending, {"degree": par["degree"].default, "size": par["size"].default, "method": par["method"].default})
 
 
+
+# ================================================================================================
+# round 4
+# ================================================================================================
+def _run_parts(ctx: Ctx, kind, parts):
+    """Run independent parts; an exception in one part never hides what the others find. The library raising inside the
+    envelope is a failure of its own (`<part>:raises`); anything else (driver, harness) is kept and re-raised at the end."""
+    first = None
+    for name, fn in parts:
+        try:
+            fn()
+        except Exception as e:  # noqa: BLE001
+            tb = traceback.extract_tb(e.__traceback__)
+            if not isinstance(e, DriverError) and any(str(SRC) in (f.filename or "") for f in tb):
+                where = next(f for f in reversed(tb) if str(SRC) in (f.filename or ""))
+                ctx.fail(kind, f"{name}:raises", f"part `{name}`: the library raised {type(e).__name__}: {str(e)[:200]} at {where.filename.split('/')[-1]}:{where.lineno} "
+                         "on an input inside the property's range", witness={"part": name, "traceback": traceback.format_exception(type(e), e, e.__traceback__)[-6:]})
+            elif first is None:
+                first = e
+    if first is not None:
+        raise first
+
+
+def _chains(ctx: Ctx, ang, n):
+    """(method, sequence): sizes together with their OWN matched degree (and the degree that one resolves to when read as a
+    size), in both orders, with repeats — table sizes and odd sizes between table entries, every method. A converter that
+    works on a partly converted array confuses an already written degree with a later size exactly here."""
+    out = [("lebedev", [50, 11]), ("lebedev", [11, 50]), ("lebedev", [49, 11, 5])]
+    for m in METHODS:
+        npts = getattr(ang, PREFIX[m] + "_NPOINTS")
+        ks = sorted(npts)
+
+        def deg(x):
+            return npts[min(k for k in ks if k >= x)]
+        picks = [k for k in ks if deg(k) != k and deg(k) >= 2][:40]
+        for j in range(n):
+            k = picks[j] if j < 3 else ctx.rng.choice(picks)
+            s0 = k if j % 2 == 0 else max(1, k - ctx.rng.randrange(1, 3))      # a table size / an odd size just below it
+            d1 = deg(s0)
+            d2 = deg(d1)
+            d3 = deg(d2)
+            for q in ([s0, d1], [d1, s0], [s0, d1, d2], [d2, d1, s0], [d1, s0, d1, s0], [s0, d1, d2, d3, s0]):
+                out.append((m, q))
+            extra = [ctx.rng.choice(ks[:30]) for _ in range(2)]
+            q = [s0, d1, d2] + extra
+            ctx.rng.shuffle(q)
+            out.append((m, q))
+    return out
+
+
 def _requests(ctx: Ctx, ang, full: bool):
     """-> list of (method, kind, n)"""
     reqs = []
@@ -820,8 +904,7 @@ def _requests(ctx: Ctx, ang, full: bool):
     return reqs
 
 
-def corr(ctx: Ctx):
-    ang = importlib.import_module("grid.angular")
+def _corr_resolve(ctx: Ctx, ang):
     reqs = _requests(ctx, ang, ctx.thorough)
     lines = [f"C12.resolve {m} {k} {n}" for m, k, n in reqs]
     model = driver_batch(lines)
@@ -853,18 +936,24 @@ def corr(ctx: Ctx):
         r = _impl(ang, m)
         if r != "value-error":
             ctx.fail("corr", f"resolve:{m}:malformed", f"degree=None,size=None not rejected: {r}")
-    # converter on sequences: a *history* of calls in one process; the sizes come from one shared
-    # pool (table keys of every method and values around them), so the same size is converted
-    # under different methods, in both orders, repeatedly — the rule is stateless, any memory of
-    # earlier calls shows up as a disagreement with the model
+
+
+def _pool(ctx: Ctx, ang):
     pool = set()
     for m in METHODS:
         ks = sorted(getattr(ang, PREFIX[m] + "_NPOINTS"))
         for k in ks[:14] + ctx.rng.sample(ks, min(6, len(ks))) + [ks[-1]]:
             pool.update((k - 1, k, k + 1))
-    pool = sorted(x for x in pool if x >= 0)
+    return sorted(x for x in pool if x >= 0)
+
+
+def _corr_convert_history(ctx: Ctx, ang, pool):
+    # converter on sequences: a *history* of calls in one process; the sizes come from one shared
+    # pool (table keys of every method and values around them), so the same size is converted
+    # under different methods, in both orders, repeatedly — the rule is stateless, any memory of
+    # earlier calls shows up as a disagreement with the model
     nseq = ctx.n(160, 3000)
-    seqs = []
+    seqs = list(_chains(ctx, ang, ctx.n(4, 25)))       # a size together with its own matched degree: in every run
     for _ in range(nseq):
         m = ctx.rng.choice(METHODS)
         npts = list(getattr(ang, PREFIX[m] + "_NPOINTS"))
@@ -890,13 +979,23 @@ def corr(ctx: Ctx):
             ctx.fail("corr", f"convert:{m}", f"convert_angular_sizes_to_degrees({s}, {m}) after earlier calls with other methods: implementation {impl}, model {ans}",
                      witness={"method": m, "sizes": s, "impl": impl, "model": ans,
                               "history": [[mm, ss] for mm, ss in seqs[:seqs.index((m, s))][-12:]]})
-    _corr_classes(ctx, ang)
-    _corr_containers(ctx, ang, pool)
-    _corr_constructions(ctx, ang)
-    _corr_atomgrid(ctx, ang)
-    _corr_numeric(ctx, ang)
-    _corr_fresh(ctx, ang)
+
+
+def corr(ctx: Ctx):
+    ang = importlib.import_module("grid.angular")
+    pool = _pool(ctx, ang)
+    _run_parts(ctx, "corr", [
+        ("resolve", lambda: _corr_resolve(ctx, ang)),
+        ("convert", lambda: _corr_convert_history(ctx, ang, pool)),
+        ("classes", lambda: _corr_classes(ctx, ang)),
+        ("containers", lambda: _corr_containers(ctx, ang, pool)),
+        ("constructions", lambda: _corr_constructions(ctx, ang)),
+        ("atomgrid", lambda: _corr_atomgrid(ctx, ang)),
+        ("numeric", lambda: _corr_numeric(ctx, ang)),
+        ("fresh", lambda: _corr_fresh(ctx, ang)),
+    ])
     ctx.traces += 1
+
 
 
 SNIPPET = """import warnings; warnings.filterwarnings('ignore')
@@ -1130,7 +1229,13 @@ def _oracle_steps(ctx: Ctx, ang, steps, obs, where):
                 if o.get("error") != "ValueError":
                     return fail(i, f"angular:{m}:built", f"unknown method accepted: {o}", {"error": "ValueError"})
                 continue
+            if any(v is not None and (isinstance(v, bool) or not isinstance(v, int) or v < 0) for v in (d, sz)):
+                continue        # a float / negative request is outside the property's quantifier (the step is there for what follows it)
             kind, n = ("size", sz) if sz is not None else ("deg", d)
+            if n is None:       # neither a degree nor a size: nothing to build
+                if o.get("error") != "ValueError":
+                    return fail(i, f"angular:{m}:built", f"AngularGrid with degree=None and size=None was not rejected: {o}", {"error": "ValueError"})
+                continue
             w = ext.want(ang, m, kind, n)
             if w is None:
                 if o.get("error") != "ValueError":
@@ -1176,6 +1281,8 @@ def _oracle_steps(ctx: Ctx, ang, steps, obs, where):
                 return fail(i, f"angular:{m}:{kind}", f"_get_degree_and_size answers {o}", exp)
         elif op == "load" and m in METHODS:
             fa = ext.file_arrays(m, st["degree"], st["size"])
+            if fa is None or ext.want(ang, m, "deg", st["degree"]) != (st["degree"], st["size"]):
+                continue        # not a pair of the table: the loader refuses it (checked by the correspondence)
             exp = {"points": ext.sha(fa[0]), "npoints": len(fa[0])}
             if {k: o.get(k) for k in exp} != exp:
                 return fail(i, f"angular:{m}:load", f"the loader returns {o.get('npoints')} points that are not those of the file", exp)
@@ -1184,15 +1291,34 @@ def _oracle_steps(ctx: Ctx, ang, steps, obs, where):
             exp = {"error": "ValueError"} if any(w is None for w in ws) else {"degrees": [w[0] for w in ws]}
             if {k: o.get(k) for k in exp} != exp:
                 return fail(i, f"angular:{m}:convert", f"convert_angular_sizes_to_degrees gives {o.get('degrees', o.get('error'))}", exp)
-        elif op in ("atomgrid", "pruned", "preset") and m in METHODS:
-            if op == "atomgrid":
+        elif op in ("atomgrid", "pruned", "preset", "atomgrid2", "pruned2") and m in METHODS:
+            seq = None
+            if op == "atomgrid2":       # both alternative arguments may be given: the documentation says sizes win
+                kind, req = ("size", st["sizes"]) if st.get("sizes") is not None else ("deg", st.get("degrees"))
+            elif op == "pruned2":       # s_sectors win over d_sectors
+                kind, seq = ("size", st["s_sectors"]) if st.get("s_sectors") is not None else ("deg", st.get("d_sectors"))
+                req = None if seq is None else [seq[st["sector"]]] * len(st["rpoints"])
+            elif op == "atomgrid":
                 req, kind = st["seq"], st["kind"]
             elif op == "pruned":
-                req, kind = [st["seq"][st["sector"]]] * len(st["rpoints"]), st["kind"]
+                seq, kind = st["seq"], st["kind"]
+                req = [seq[st["sector"]]] * len(st["rpoints"])
             else:
                 req, kind = st["request"], "size"
+            if req is None:             # neither of the two: must be refused
+                if "error" not in o:
+                    return fail(i, f"angular:{m}:atomgrid", f"{op} with neither degrees nor sizes built a grid: {o.get('degrees')}", {"error": "TypeError"})
+                continue
+            if op in ("atomgrid", "atomgrid2"):
+                every = list(req)       # the converter / the constructor sees every entry, also when the lengths do not fit
+                if len(req) == 1:       # one entry stands for every radial point
+                    req = list(req) * len(st["rpoints"])
+                elif len(req) != len(st["rpoints"]):
+                    if o.get("error") != "ValueError":
+                        return fail(i, f"angular:{m}:atomgrid", f"{op}: {len(req)} requests for {len(st['rpoints'])} radial points were not refused: {o.get('degrees')}", {"error": "ValueError"})
+                    continue
             ws = _shell_want(ang, m, kind, req)
-            also = _shell_want(ang, m, kind, st["seq"]) if op == "pruned" else []     # every sector request is converted
+            also = _shell_want(ang, m, kind, seq) if seq is not None else []     # every sector request is converted
             exp = {"error": "ValueError"} if any(w is None for w in ws + also) else {"degrees": [w[0] for w in ws], "shells": [w[1] for w in ws]}
             if {k: o.get(k) for k in exp} != exp:
                 return fail(i, f"angular:{m}:atomgrid" + ("" if op == "atomgrid" else ":from_" + op), f"{op}: shell degrees {o.get('degrees', o.get('error'))} / sizes {o.get('shells')}; requested per shell ({kind}) {req}", exp)
@@ -1322,6 +1448,86 @@ def _oracle_round3(ctx: Ctx, ang, budget):
 
 
 
+
+def _round4_steps(ctx: Ctx, ang, n):
+    """Classes 15 (every argument combination: both alternatives at once, positional / keyword, omitted / None / default),
+    18 (calls that raise, then accepted calls) and 20 (one entry for every shell, one and two radial points, first / last
+    entry special, lengths that do not fit), as one history."""
+    steps = []
+    for m in METHODS:
+        npts = getattr(ang, PREFIX[m] + "_NPOINTS")
+        ks = [k for k in sorted(npts) if k <= 800]
+        dmax, smax = max(npts.values()), max(npts)
+        for _ in range(n):
+            k = ctx.rng.choice(ks)
+            d, sreq, dreq = npts[k], max(0, k - ctx.rng.randrange(0, 3)), max(0, npts[k] - ctx.rng.randrange(0, 2))
+            other_d, other_s = ctx.rng.choice([3, 5, dmax, dmax + 7]), ctx.rng.choice([1, 27, smax, smax + 7])
+            # AngularGrid: every combination of degree / size given, None, omitted
+            steps += [{"op": "init", "degree": None, "size": sreq, "method": m},
+                      {"op": "init", "degree": other_d, "size": sreq, "method": m, "cache": ctx.rng.choice([True, False])},
+                      {"op": "init", "degree": dreq, "size": None, "method": m},
+                      {"op": "init", "degree": dreq, "positional": True, "size": None, "cache": True, "method": m},
+                      {"op": "init", "degree": None, "size": None, "method": m},
+                      {"op": "init", "degree": None, "method": m}]
+            if m == "lebedev":
+                steps += [{"op": "init"}, {"op": "init", "degree": 50}, {"op": "init", "degree": 50, "size": None, "cache": True, "method": "lebedev"}]
+            # AtomGrid: degrees and sizes at once (sizes win, the degrees may be anything), None next to the alternative, positional
+            L = ctx.rng.randrange(1, 4)
+            rp = [0.3 * (j + 1) for j in range(L)]
+            dseq = [max(0, ctx.rng.choice([dreq, 3, other_d])) for _ in range(L)]
+            sseq = [ctx.rng.choice([sreq, 1, k]) for _ in range(L)]
+            steps += [{"op": "atomgrid2", "degrees": dseq, "sizes": sseq, "rpoints": rp, "method": m},
+                      {"op": "atomgrid2", "degrees": None, "sizes": sseq, "rpoints": rp, "method": m, "container": "array"},
+                      {"op": "atomgrid2", "degrees": [min(x, dmax) for x in dseq], "sizes": None, "rpoints": rp, "method": m},
+                      {"op": "atomgrid2", "degrees": [min(x, dmax) for x in dseq], "positional": True, "rpoints": rp, "method": m, "container": "array"},
+                      {"op": "atomgrid2", "degrees": None, "sizes": None, "rpoints": rp, "method": m},
+                      {"op": "atomgrid2", "degrees": [dmax + 1] * L, "sizes": sseq, "rpoints": rp, "method": m}]
+            # one entry for every shell; one and two radial points; first / last entry special; lengths that do not fit
+            for npnt in (1, 2, 3, 5):
+                rp2 = [0.25 * (j + 1) for j in range(npnt)]
+                steps.append({"op": "atomgrid", "kind": ctx.rng.choice(["deg", "size"]), "seq": [ctx.rng.choice([dreq, 0, 7])], "rpoints": rp2, "method": m})
+            steps += [{"op": "atomgrid", "kind": "deg", "seq": [dmax, 0], "rpoints": [0.4, 0.8], "method": m},
+                      {"op": "atomgrid", "kind": "size", "seq": [0, sreq, min(smax, 3000)], "rpoints": [0.4, 0.8, 1.3], "method": m},
+                      {"op": "atomgrid", "kind": "deg", "seq": [dreq, 3], "rpoints": [0.4, 0.8, 1.3], "method": m},
+                      {"op": "atomgrid2", "sizes": [sreq, 1, 6], "rpoints": [0.4, 0.8], "method": m}]
+            # from_pruned: both sector lists at once (the sizes win), None next to the alternative
+            sector = ctx.rng.randrange(2)
+            rs = [[1e9], [1e-9]][sector]
+            steps += [{"op": "pruned2", "d_sectors": [other_d, 3], "s_sectors": [sreq, k], "sector": sector, "radius": 1.0, "r_sectors": rs, "rpoints": [0.3, 0.9], "method": m},
+                      {"op": "pruned2", "d_sectors": None, "s_sectors": [k, sreq], "sector": sector, "radius": 1.0, "r_sectors": rs, "rpoints": [0.3, 0.9], "method": m},
+                      {"op": "pruned2", "d_sectors": [dreq, 3], "s_sectors": None, "sector": sector, "radius": 1.0, "r_sectors": rs, "rpoints": [0.3], "method": m},
+                      {"op": "pruned2", "d_sectors": [3, dreq], "sector": sector, "radius": 1.0, "r_sectors": rs, "rpoints": [0.3, 0.9, 1.4], "method": m, "container": "array"}]
+            # calls that raise, each followed by the accepted call it resembles (class 18)
+            steps += [{"op": "init", "degree": dmax + 1, "cache": True, "method": m}, {"op": "init", "degree": dmax, "cache": False, "method": m} if dmax <= 131 or m != "lebedev" else {"op": "init", "degree": 3, "method": m},
+                      {"op": "convert", "sizes": [sreq, smax + 1], "method": m}, {"op": "convert", "sizes": [sreq, sreq], "method": m},
+                      {"op": "atomgrid", "kind": "deg", "seq": [dreq, dmax + 2], "rpoints": [0.4, 0.8], "method": m}, {"op": "atomgrid", "kind": "deg", "seq": [dreq, 3], "rpoints": [0.4, 0.8], "method": m},
+                      {"op": "init", "size": -3, "method": m}, {"op": "init", "size": sreq, "cache": False, "method": m},
+                      {"op": "init", "degree": dreq, "method": m.upper() + "?"}, {"op": "init", "degree": dreq, "method": m.upper()}]
+    # a size together with its own matched degree as the per-shell sizes of an atomic grid, both orders
+    for m, q in _chains(ctx, ang, 2)[:3] + ctx.rng.sample(_chains(ctx, ang, 2), 6 * n):
+        if max(q) <= 800:
+            steps.append({"op": "atomgrid", "kind": "size", "seq": q, "rpoints": [0.2 * (j + 1) for j in range(len(q))], "method": m,
+                          "container": ctx.rng.choice(["list", "array"])})
+    return json.loads(json.dumps(steps))
+
+
+def _oracle_round4(ctx: Ctx, ang, budget):
+    big = budget == "large" or ctx.thorough
+    steps = _round4_steps(ctx, ang, 3 if big else 1)
+    # the largest grids are cheap to resolve but not to build many times: keep the history below ~10 s
+    if not _oracle_steps(ctx, ang, steps, ext.exec_steps(steps), "inproc"):
+        return
+    # the same history split over fresh interpreters (a raising call first, then the accepted ones)
+    chunks = [steps[i:i + 12] for i in range(0, len(steps), 12)]
+    chunks = chunks if big else ctx.rng.sample(chunks, min(4, len(chunks)))
+    for sc, ob in zip(chunks, ext.run_scenarios(chunks)):
+        if len(ob) != len(sc):
+            ctx.fail("oracle", "angular:fresh:crash", f"fresh interpreter: history did not run to its end: {str(ob)[-300:]}", witness={"steps": sc})
+            continue
+        if not _oracle_steps(ctx, ang, sc, ob, "fresh"):
+            return
+
+
 def _same_object_cases(ctx: Ctx, ang, n):
     """(route, method, kind, container, request, times, sector, atoms): ONE argument object serving several requests."""
     cases = []
@@ -1329,13 +1535,14 @@ def _same_object_cases(ctx: Ctx, ang, n):
         npts = getattr(ang, PREFIX[m] + "_NPOINTS")
         ks = [k for k in sorted(npts) if k <= 1500]
         ds = [npts[k] for k in ks]
-        for route in ("convert", "atomgrid", "pruned") + (("molpruned",) if m == "lebedev" else ()):
+        for route in ("convert", "atomgrid", "pruned", "mixed") + (("molpruned",) if m == "lebedev" else ()):
             for kind in (("size",) if route == "convert" else ("size", "deg")):
-                conts = ["int64", "intp", "int32", "list"] + (["tuple"] if route in ("convert", "pruned") else [])
-                picked = ["int64"] + ctx.rng.sample(conts[1:], min(n, len(conts) - 1))
+                # (a read-only array is only handed to the routes that document array-like input and never write: all of them)
+                conts = ["int64", "intp", "int32", "list", "view", "strided", "rev", "ro", "int16", "uint16"] + (["tuple"] if route in ("convert", "pruned") else [])
+                picked = ["int64", "view"] + ctx.rng.sample(conts[1:], min(n, len(conts) - 1))
                 for cont in picked:
                     src = ks if kind == "size" else ds
-                    L = 2 if route in ("pruned", "molpruned") else ctx.rng.randrange(2, 5)
+                    L = 2 if route in ("pruned", "molpruned", "mixed") else ctx.rng.randrange(2, 5)
                     req = [max(0, ctx.rng.choice(src[4:]) - ctx.rng.randrange(0, 2)) for _ in range(L)]
                     if ctx.rng.random() < 0.3:
                         req[-1] = req[0]
@@ -1453,10 +1660,7 @@ CONVERT_SNIPPET = ("import warnings; warnings.filterwarnings('ignore')\nimport n
                    "        assert d == want, f'{{m}} {{c.__name__}} {{s}}: {{d}} != {{want}}'\n")
 
 
-def oracle(ctx: Ctx, budget: str):
-    """The property on the implementation, against a brute-force minimum over the table
-    and the data directory (no bisect, no model)."""
-    ang = importlib.import_module("grid.angular")
+def _oracle_sweep(ctx: Ctx, ang, budget):
     reqs = _requests(ctx, ang, full=(budget == "large" or ctx.thorough))
     for m in METHODS:
         npts = getattr(ang, PREFIX[m] + "_NPOINTS")
@@ -1493,6 +1697,9 @@ def oracle(ctx: Ctx, budget: str):
                 ctx.fail("oracle", f"angular:{m}:{k}", f"{m} {k}={n}: got {got}, smallest supported not below is {want}",
                          witness={"method": m, "kind": k, "request": n, "got": got, "want": want},
                          snippet=SNIPPET.format(method=m, kind=k, n=n))
+
+
+def _oracle_intkinds(ctx: Ctx, ang):
     # integer-like argument kinds take the same rule (bool, NumPy integers of every width)
     for m in METHODS:
         npts = getattr(ang, PREFIX[m] + "_NPOINTS")
@@ -1506,6 +1713,9 @@ def oracle(ctx: Ctx, budget: str):
                     ctx.fail("oracle", f"angular:{m}:{k}", f"{m} {k}={v!r}: got {got}, smallest supported not below is {want}",
                              witness={"method": m, "kind": k, "request": repr(v), "got": got, "want": want},
                              snippet=SNIPPET.format(method=m, kind=k, n=int(v)))
+
+
+def _oracle_built(ctx: Ctx, ang, budget):
     # built grids: one history of constructions (cache on and off, degree / size / both, any spelling,
     # largest degree and size of every method, every request at least twice, interleaved)
     plan = _construction_plan(ctx, ang, 2 if budget == "small" else 14)
@@ -1514,12 +1724,15 @@ def oracle(ctx: Ctx, budget: str):
         if not _check_built(ctx, ang, step, done):
             break
         done.append(step)
-    # AtomGrid(...).degrees: no shell coarser than asked for
-    _oracle_atomgrid(ctx, ang, 1 if budget == "small" else 8)
-    # round 3: fresh interpreters, edited hand-outs, accessor orders, every consumer route
-    _oracle_round3(ctx, ang, budget)
-    # one argument object serving several requests
-    _oracle_same_object(ctx, ang, 1 if budget == "small" and not ctx.thorough else 4)
+
+
+def _oracle_convert_history(ctx: Ctx, ang, budget):
+    # a size together with its own matched degree, both orders, every method, every container: in every run
+    for m, q in _chains(ctx, ang, 3 if budget == "small" and not ctx.thorough else 20):
+        for cont in (np.array, list, lambda v: np.array(v, dtype=np.int32), lambda v: np.array(v[::-1], dtype=np.int64)[::-1]):
+            ctx.count(["chain", m, q], nontrivial=True, tag="oracle:convert:size-with-own-degree")
+            if not _oracle_convert(ctx, ang, m, q, cont):
+                return
     # converter element-wise, as a history of calls with a shared pool of sizes across methods
     pool = set()
     for m in METHODS:
@@ -1539,3 +1752,20 @@ def oracle(ctx: Ctx, budget: str):
         cont = ctx.rng.choice([np.array, np.array, list, tuple, lambda q: np.array(q, dtype=np.int32), lambda q: np.repeat(np.array(q), 2)[::2]])
         if not _oracle_convert(ctx, ang, m, s, cont):
             break
+
+
+def oracle(ctx: Ctx, budget: str):
+    """The property on the implementation, against a brute-force minimum over the table
+    and the data directory (no bisect, no model). Independent parts: one raising does not hide the others."""
+    ang = importlib.import_module("grid.angular")
+    small = budget == "small" and not ctx.thorough
+    _run_parts(ctx, "oracle", [
+        ("angular:sweep", lambda: _oracle_sweep(ctx, ang, budget)),
+        ("angular:intkinds", lambda: _oracle_intkinds(ctx, ang)),
+        ("angular:built", lambda: _oracle_built(ctx, ang, budget)),
+        ("angular:atomgrid", lambda: _oracle_atomgrid(ctx, ang, 1 if budget == "small" else 8)),
+        ("angular:histories", lambda: _oracle_round3(ctx, ang, budget)),
+        ("angular:same-object", lambda: _oracle_same_object(ctx, ang, 1 if small else 4)),
+        ("angular:convert", lambda: _oracle_convert_history(ctx, ang, budget)),
+        ("angular:round4", lambda: _oracle_round4(ctx, ang, budget)),
+    ])
